@@ -229,6 +229,9 @@ def _check_reflection(site, opt, y, earth, sun):
 
 # ------------------------------------------------------------------ frames
 
+ROUTE_GAP_AS = 1.2
+
+
 def carried(e_from, e_to, lon, lat):
     """The of-date ecliptic direction (lon, lat) carried to the equinox of e_to by the
     library's precession, as equatorial unit vectors of e_to, by both routes."""
@@ -239,6 +242,16 @@ def carried(e_from, e_to, lon, lat):
     ra, dec = rot.lonlat(rot.ecl2equ(rot.vec(lon, lat), eps_from))
     a1, d1 = C.precession_equatorial(e_from, e_to, Angle(ra), Angle(dec))
     b_vec = rot.vec(a1(), d1())
+    # the two routes of "the library's own precession" name the same direction (they differ by
+    # less than 0.5 arcsec over 1000..3000 on a sound tree); the smaller residual counts below only
+    # as long as they do
+    gap = rot.sep(a_vec, b_vec) * AS
+    if gap > ROUTE_GAP_AS:
+        raise Violation("the library's precession carries the ecliptic direction (%r, %r) from JDE %r "
+                        "to JDE %r to directions %.2f arcsec apart by its ecliptical and its equatorial "
+                        "routine (limit %.1f)" % (lon, lat, e_from.jde(), e_to.jde(), gap, ROUTE_GAP_AS),
+                        site="Coordinates.precession_ecliptical/precession_equatorial",
+                        kind="precession_routes_disagree", gap_as=gap)
     return (a_vec, b_vec), eps_to
 
 
